@@ -9,6 +9,6 @@ for seed in ${SEEDS:-1 2 3 4 5 6 7 8}; do
     out=$(VERIF_SEED=$seed VERIF_RUNS=${RUNS:-} ./check $p --tier ${TIER:-quick} --no-evidence 2>&1 | grep -v conda)
     rc=$?
     echo "seed=$seed $p: $(echo "$out" | grep -E '^\[' | tail -1)"
-    echo "$out" | grep -E "VIOLATION|HARNESS|violation:" | head -5
+    echo "$out" | grep -E "VIOLATION|HARNESS|violation:|finding of another property" | head -8
   done
 done
